@@ -109,7 +109,7 @@ func (s *segImpl) exec(op string) (out string) {
 		if s.sr == nil {
 			return "err noreader"
 		}
-	case "file", "filehex", "mut", "trunc", "recover", "opensealed", "dump":
+	case "file", "filehex", "hdrat", "mut", "trunc", "recover", "opensealed", "dump":
 		if s.name == "" {
 			return "err nofile"
 		}
@@ -198,6 +198,13 @@ func (s *segImpl) exec(op string) (out string) {
 	case "filehex":
 		data, _ := s.disk.FileData(s.name)
 		return hx(data)
+	case "hdrat": // the 8 bytes at an offset read as a frame header: "<type> <length>"
+		data, _ := s.disk.FileData(s.name)
+		off := int(atoiU(ws[1]))
+		if off < 0 || off+8 > len(data) {
+			return "out-of-file"
+		}
+		return fmt.Sprintf("%d %d", data[off], uint32(data[off+4])|uint32(data[off+5])<<8|uint32(data[off+6])<<16|uint32(data[off+7])<<24)
 	case "setfile":
 		s.disk.SetFileData(s.name, unhx(ws[1]))
 		return "ok"
@@ -410,6 +417,17 @@ func segMonitor(ops, impl []string) []Violation {
 			inflight = map[uint64]string{}
 			inflightN = 0
 			recovered = false
+		case "hdrat":
+			// issued by the generator right after the writer reported (sealed, IndexStart): README — IndexStart is the
+			// offset of the index array, directly preceded by an index frame header (type 2) whose length is 4 bytes
+			// per entry
+			if malformed {
+				continue
+			}
+			f := strings.Fields(out)
+			if len(f) != 2 || f[0] != "2" || atoiU(f[1])%4 != 0 || atoiU(f[1]) == 0 {
+				add("C09", "the IndexStart the writer reports is not directly preceded by an index frame header", fmt.Sprintf("%s -> %s", op, out), i)
+			}
 		case "get":
 			if malformed {
 				continue
@@ -550,6 +568,9 @@ func genSegCase(r *Rng, id string, tier string) *Case {
 				}
 				if so := g.do("sealed"); so != "false" {
 					g.tags["recovered-sealed"] = true
+					if f := strings.Fields(so); len(f) == 2 && atoiU(f[1]) >= 8 {
+						g.do(fmt.Sprintf("hdrat %d", atoiU(f[1])-8))
+					}
 				}
 				// overwrite stale bytes with a batch of the same shape minus its last entry
 				if r.Chance(1, 2) && n > 1 {
@@ -622,6 +643,9 @@ func genSegCase(r *Rng, id string, tier string) *Case {
 		if so := g.do("sealed"); strings.HasPrefix(so, "true") {
 			sealedIS = atoiU(strings.Fields(so)[1])
 			g.tags["sealed"] = true
+			if sealedIS >= 8 {
+				g.do(fmt.Sprintf("hdrat %d", sealedIS-8))
+			}
 			break
 		}
 	}
@@ -647,6 +671,9 @@ func genSegCase(r *Rng, id string, tier string) *Case {
 		g.tags["forceseal"] = true
 		if strings.HasPrefix(o, "ok") {
 			sealedIS = atoiU(strings.Fields(o)[1])
+			if sealedIS >= 8 {
+				g.do(fmt.Sprintf("hdrat %d", sealedIS-8))
+			}
 		}
 		g.do("file")
 		g.do("app n" + g.batch(1))
